@@ -14,6 +14,7 @@ func init() { register("C17", checkC17) }
 
 func checkC17(c *Ctx, r *Report) {
 	r.Explanation = "R2/R1 on the Go skeletons and the trace builders: stack slots are written only in PushStateSym (and ParserInit), which calls TraceShift on the pushed entry first; in the reduce branch TraceReduce(reduceIndex, gotoState, TraceTranslate(lookAhead)) lies between the goto lookup and the push and receives the rule index given to ReduceFunc and the state that is pushed; ReduceTrace case i is built from the visitor's rule i−1 (the same offset as the reduce cases, C01.c) over all rules; TranslateTrace covers every grammar symbol with id → display name; every trace print is guarded by IsTrace and by nothing else. Not decided: the printed text on any input; that the run is a legal run of the automaton (follows from C01)."
+	displayNameRule(c, r, "C17.c")
 	st := c.GetStaged()
 	stagedErrors(r, "C17", st)
 	for _, sk := range quickSkeletons(st) {
@@ -24,21 +25,7 @@ func checkC17(c *Ctx, r *Report) {
 		}
 		recv := map[bool]string{true: "Context", false: ""}[sk.V.Object]
 		// (1) who writes stack slots
-		sf := skeletonFuncs(sk)
-		var writers []string
-		for fd, n := range sf.names {
-			if n == "GetToken" {
-				continue
-			}
-			pv, rf := storesOf(sk.Info, fd)
-			if _, ok := pv["StateSymStack"]; ok {
-				writers = append(writers, n)
-			}
-			if _, ok := rf["StackSym"]; ok {
-				writers = append(writers, n)
-			}
-		}
-		sortStrings(writers)
+		writers := stackSlotWriters(sk)
 		allowed := map[string]bool{"PushStateSym": true, "Context.PushStateSym": true, "ParserInit": true, "Context.ParserInit": true, "PopContex": true}
 		bad := ""
 		for _, w := range writers {
